@@ -113,7 +113,11 @@ VARIANTS = [
     ("fee: the spend size chosen under an if", "btclib.fee", lambda s: s.replace("    size += _SEGWIT_SPEND_SIZE if is_segwit(script_pub_key) else _SPEND_SIZE\n", "    if is_segwit(script_pub_key):\n        size += _SEGWIT_SPEND_SIZE\n    else:\n        size += _SPEND_SIZE\n", 1)),
     ("silent_payments: the sender's parity read with & 1", "btclib.silent_payments", lambda s: s.replace("        if is_p2tr(bytes_from_octets(script_pub_key)) and mult(a)[1] % 2:\n", "        if is_p2tr(bytes_from_octets(script_pub_key)) and mult(a)[1] & 1:\n", 1)),
     ("psbt musig2: the sighash suffix under an explicit comparison", "btclib.psbt.musig2", lambda s: s.replace("    if psbt_in.sig_hash_type:\n", "    if psbt_in.sig_hash_type not in (None, 0):\n", 1)),
-    ("sec_point: the compressed y chosen under an if", "btclib.curves.sec_point", lambda s: s.replace("y_Q if prefix == 2 else ec.p - y_Q", "ec.p - y_Q if prefix != 2 else y_Q", 1)),
+    ("sec_point: the compressed y chosen under an if", "btclib.curves.sec_point", lambda s: s.replace("y_Q if prefix == 0x02 else ec.p - y_Q", "ec.p - y_Q if prefix != 0x02 else y_Q", 1)),
+    ("descriptors: the allowed positions of a tree function given a name", "btclib.descriptors.descriptors", lambda s: s.replace("        _assert_position(name, context, (_P2TR,))\n", "        tree_only = (_P2TR,)\n        _assert_position(name, context, tree_only)\n", 1)),
+    ("psbt: the DER part of a partial signature given a name", "btclib.psbt.psbt", lambda s: s.replace("        if not dsa.verify_(msg_hash, pub_key, sig[:-1]):\n            err_msg = f\"invalid partial signature for pub_key", "        der_sig = sig[:-1]\n        if not dsa.verify_(msg_hash, pub_key, der_sig):\n            err_msg = f\"invalid partial signature for pub_key", 1)),
+    ("compact_blocks: the siphash key halves read through locals", "btclib.p2p.compact_blocks", lambda s: s.replace("        k0 = int.from_bytes(digest[:8], byteorder=\"little\", signed=False)\n", "        low = digest[:8]\n        k0 = int.from_bytes(low, byteorder=\"little\", signed=False)\n", 1)),
+    ("taproot: the branch paths built in one expression", "btclib.script.taproot", lambda s: s.replace("    info = [(leaf, c + right_h) for leaf, c in left]\n    info += [(leaf, c + left_h) for leaf, c in right]\n", "    info = [(leaf, c + right_h) for leaf, c in left] + [\n        (leaf, c + left_h) for leaf, c in right\n    ]\n", 1)),
     ("psbt_in: two from_dict arguments passed by keyword", "btclib.psbt.psbt_in", lambda s: s.replace('            dict_["unknown"],\n            dict_["previous_tx_id"],', '            unknown=dict_["unknown"],\n            previous_tx_id=dict_["previous_tx_id"],', 1) if False else s.replace('            dict_["taproot_internal_key"],\n            dict_["taproot_merkle_root"],\n', '            dict_["taproot_internal_key"],  # the key\n            dict_["taproot_merkle_root"],  # the root\n', 1)),
 ]
 
